@@ -15,7 +15,7 @@ from sa.model import AnalysisError
 from sa.ctx import Ctx, short, stmt_key
 from sa.cfg import NORMAL, describe_path
 from sa.report import Report
-from sa.util import cfg_root, node_has_call, has_fact, exists_in
+from sa.util import cfg_root, node_has_call, has_fact, exists_in, fact_in, local_assigned_from
 from sa import pat
 
 
@@ -61,7 +61,8 @@ def w4(ctx: Ctx, rep: Report, rid: str = "C14.W4"):
     ul = p.func("SyncState.unconditionally_get_latest")
     gu = ctx.cfg(ul)
     nic = [n for n in gu.nodes if node_has_call(n, "self.unconditionally_get_no_info($$$)")]
-    ok = bool(nic) and all(("info", False) in ctx.facts(ul).facts(n) for n in nic)
+    iname = local_assigned_from(ctx, ul, "self.providers[$S].info_oid($$$)")
+    ok = bool(nic) and iname is not None and all(fact_in(ctx.facts(ul).facts(n), iname, False) for n in nic)
     ex = [n for n in gu.nodes if _assign(n, "$E[$S].exists = EXISTS")]
     pth = gu.reach([n.id for n in nic], lambda n: n in ex, follow=NORMAL) if nic else None
     rep.check(rid, "get_latest|no-info-returns", ul, ok and pth is None, "no info -> no_info arm, then return", "after the no-information arm the entry can still be marked EXISTS",
@@ -90,10 +91,11 @@ def run(ctx: Ctx, rep: Report, tier: str):
     ge = p.func("SyncEntry.get_latest")
     calls = [c for c in ctx.calls(ge, "unconditionally_get_latest")]
     ok = bool(calls)
+    mk = [n for n in ctx.own_nodes(ge) if isinstance(n, ast.Assign) and isinstance(n.value, ast.Call) and isinstance(n.value.func, ast.Name) and n.value.func.id == "max" and isinstance(n.targets[0], ast.Name)]
+    mx = mk[0].targets[0].id if mk else "?"
     for c in calls:
         facts = ctx.facts_at(ge, c)
-        ok = ok and any(pol and ("force" in txt and "max_changed >" in txt) for (txt, pol) in facts)
-    mk = [n for n in ctx.own_nodes(ge) if isinstance(n, ast.Assign) and isinstance(n.value, ast.Call) and isinstance(n.value.func, ast.Name) and n.value.func.id == "max"]
+        ok = ok and (has_fact(facts, "force or %s > $S._last_gotten" % mx, True) or has_fact(facts, "%s > $S._last_gotten or force" % mx, True))
     rep.check("C14.W1", "get_latest|condition", ge, ok and bool(mk), "refresh when forced or a change stamp is newer than the last refresh",
               "get_latest no longer refreshes exactly when `force or max_changed > _last_gotten`")
     rep.rule("C14.W2", "change stamps strictly increase (alias of C17.A6): an event arriving in the same clock tick still outdates the last refresh", expect_min=1)
@@ -133,12 +135,15 @@ def run(ctx: Ctx, rep: Report, tier: str):
         raise AnalysisError("only %d stores to _last_gotten found, expected >= 4" % k)
     rep.rule("C14.W6", "a walk event is dropped only when the entry is known and neither its hash nor its path differs", expect_min=1)
     g2 = ctx.cfg(pe)
-    rets = [n for n in g2.nodes if n.kind == "stmt" and isinstance(n.ast, ast.Return) and ("from_walk", True) in ctx.facts(pe).facts(n)]
+    rets = [n for n in g2.nodes if n.kind == "stmt" and isinstance(n.ast, ast.Return) and fact_in(ctx.facts(pe).facts(n), "from_walk", True)]
+    chg = [n for n in ctx.own_nodes(pe) if isinstance(n, ast.Assign) and isinstance(n.targets[0], ast.Name) and isinstance(n.value, ast.BoolOp)
+           and {"hash", "path"} <= {x.attr for x in ast.walk(n.value) if isinstance(x, ast.Attribute)}]
+    cname = chg[0].targets[0].id if chg else "?"
+    aname = local_assigned_from(ctx, pe, "self.state.lookup_oid(self.side, event.oid)") or "?"
     ok = bool(rets)
     for r in rets:
         facts = ctx.facts(pe).facts(r)
-        ok = ok and ("already", True) in facts and ("changed", False) in facts
-    chg = [n for n in ctx.own_nodes(pe) if isinstance(n, ast.Assign) and isinstance(n.targets[0], ast.Name) and n.targets[0].id == "changed"]
+        ok = ok and fact_in(facts, aname, True) and fact_in(facts, cname, False)
     ok = ok and len(chg) == 1 and isinstance(chg[0].value, ast.BoolOp) and isinstance(chg[0].value.op, ast.Or) and \
         {"hash", "path"} <= {x.attr for x in ast.walk(chg[0].value) if isinstance(x, ast.Attribute)}
     rep.check("C14.W6", "_process_event|walk-dedupe", pe, ok, "dropped only when known and hash and path are equal", "walk events are dropped under a weaker condition (a changed object is missed) or never")
